@@ -1075,7 +1075,12 @@ socks_data_received = Spec(
                                                   sk_addrtype(c.newv('_recv_handler'), c.new('_addrtype'))),
                        # (1) lexicographic (unconsumed bytes, handler rank) as one integer
                        variant=lambda c: 8 * z3.Length(c.new('_inpbuf')) + srank(c.newv('_recv_handler')))},
-    ensures=[('armed-implies-open', sk_inv)],
+    ensures=[('armed-implies-open', sk_inv),
+             # the bytes buffered before the request is complete are bounded: every field of the handshake is a
+             # fixed count, a one-byte count, or a NUL-terminated string of at most 255 bytes - a longer
+             # unterminated field closes the connection (which disarms the parser)
+             ('buffered-bytes-bounded-while-the-request-is-incomplete',
+              lambda c: z3.Implies(armed(c.newv('_recv_handler')), z3.Length(c.new('_inpbuf')) <= 255))],
     raises={})
 socks_data_received.cvc5_first = True      # sat-models with > 255 byte buffers: cvc5 builds them quickly
 
@@ -1552,3 +1557,39 @@ def _clone_from_c08():
 
 
 c08_clones = _clone_from_c08()
+
+
+# ====================================================================== sftp.py: server-side copy-data
+# (1)/(3) offset and length of a copy-data request are peer-chosen 64-bit numbers.  The synchronous copy loop must be
+# bounded by the data actually present in the source file, not by the requested length: its variant is the number
+# of source bytes left at the read offset (decreases by the bytes actually read), and a read that returns less than
+# a full block - in particular no data - ends the loop.
+def copy_read_stub(cx):
+    """SFTPServer.read(file_obj, offset, size) on a regular file of ghost length L: exactly the bytes present,
+    min(size, max(0, L - offset)) of them (seek + read); server errors surface as SFTPError / OSError"""
+    off, size = cx.args[1].z, cx.args[2].z
+    L = cx.selff('ghost_src_len').z
+    cx.require('reads-a-positive-block', size >= 1)
+    d = cx.fresh('bytes', 'block')
+    avail = z3.If(L - off <= 0, 0, L - off)
+    return [Out(ret=d, assume=[z3.Length(d.z) == z3.If(size <= avail, size, avail)], event=('read', tuple(cx.args))),
+            Out(exc=VExc('SFTPError')), Out(exc=VExc('OSError'))]
+
+
+copy_read_stub.modifies = ()
+
+process_copy_data = Spec(
+    PROP, 'sftp', 'SFTPServerHandler._process_copy_data', self_class='SFTPServerHandler',
+    params={'packet': 'obj:SSHPacket'},
+    classes=dict(PK, SFTPServerHandler={'_file_handles': 'dict[bytes,obj:FileObj]', '_server': 'obj:Server',
+                                        'ghost_src_len': 'int'}, FileObj={}, Server={}),
+    truthy=PACKET_TRUTHY, inline=dict(PACKET_INLINE),
+    stubs={'self._server.read': copy_read_stub,
+           'self._server.write': may_raise(noop('write'), 'SFTPError', 'OSError')},
+    requires=lambda c: z3.And(packet_ok(c), c.old('ghost_src_len') >= 0),
+    loops={1: LoopSpec(header='read_to_end or read_from_length',
+                       invariant=lambda c: c.local('read_from_length') >= 0,
+                       variant=lambda c: c.new('ghost_src_len') - c.local('read_from_offset'))},
+    # converted into one SFTP status reply by the caller (_process_packet)
+    raises={'SFTPError': True, 'PacketDecodeError': True, 'OSError': True})
+process_copy_data.feasible_timeout_ms = 300
